@@ -1039,6 +1039,8 @@ class SymStr:
                 return self.data == ob
             # a payload compared with a non-empty literal: uninterpreted, length-consistent
             items = self.data._nz()
+            if _len(items) == 0:
+                return False
             if _len(items) == 1:
                 lit = ctx().notes.setdefault("lit_blobs", {})
                 if o not in lit:
